@@ -42,13 +42,14 @@ func spansCoq(ss []span4) string {
 }
 
 type frontObs struct {
-	FirstTokAtOrigin bool
-	HasFile    bool
-	Locs       []cmpb.Loc
-	ErrPos     []cmpb.Pos
-	FromParser bool
-	Panic      string
-	ErrText    string
+	FirstTokAtOrigin       bool
+	FirstTokStartsAtOrigin bool
+	HasFile                bool
+	Locs                   []cmpb.Loc
+	ErrPos                 []cmpb.Pos
+	FromParser             bool
+	Panic                  string
+	ErrText                string
 }
 
 var frontPool chan *cmpb.FrontEnd
@@ -98,6 +99,7 @@ func observeFrontNow(src string) (o frontObs) {
 		pr := bcl.ParseFile(src, true)
 		o.FromParser = pr.ErrKind != ""
 		o.FirstTokAtOrigin = firstTokenEndsAtOrigin(src)
+		o.FirstTokStartsAtOrigin = firstTokenStartsAtOrigin(src)
 		return o
 	}
 	o.HasFile = out.HasFile
@@ -109,6 +111,11 @@ func observeFrontNow(src string) (o frontObs) {
 func firstTokenEndsAtOrigin(src string) bool {
 	toks, _, _, _ := bcl.Lex(src, true)
 	return len(toks) > 0 && toks[0].End.Line == 0 && toks[0].End.Column == 0
+}
+
+func firstTokenStartsAtOrigin(src string) bool {
+	toks, _, _, _ := bcl.Lex(src, true)
+	return len(toks) > 0 && toks[0].Start.Line == 0 && toks[0].Start.Column == 0
 }
 
 func locSpans(ls []cmpb.Loc) []span4 {
@@ -434,6 +441,12 @@ func runFront(cfg *vh.Config, res *vh.Result, caseNo *int, texts []string, how [
 				// errpos.AddFilename gives an error without a position the zero Position (file:1:1): that is not
 				// a position of the error. (A lexer diagnostic on the first character legitimately is 1:1.)
 				for _, p := range o.ErrPos {
+					// a protovalidate violation on a missing member of the FIRST element of a file that starts with that
+					// element (`entity Foo {` at 1:1 without status) is reported on a child location with the parent's
+					// start (0:0) and no end: genuinely the zero Position (the walker stream compares it exactly in Coq)
+					if strings.HasPrefix(p.Msg, "elements.0.") && o.FirstTokStartsAtOrigin && !strings.HasPrefix(strings.TrimLeft(src, " \t"), "package") {
+						continue
+					}
 					if p.HasPos && p.StartLine == 0 && p.StartCol == 0 && p.EndLine == 0 && p.EndCol == 0 {
 						res.Fail(vh.Failure{Case: *caseNo, Stream: "front",
 							Sig:    "C07 error position: only the default position 1:1 (" + errClass(p.Msg) + ")",
